@@ -150,6 +150,9 @@ class ProgGen(object):
         extra = []
         if r.random() < o["p_param_tag"]:
             extra.append(r.choice(["<t>", "p.<t>"]))
+        if r.random() < o.get("p_reserved_tag", 0.0):
+            # documented special placeholders in outline tags (rendered per row)
+            extra.append(r.choice(["r<row.index>", "r<examples.index>", "q<row.id>"]))
         n = r.randint(1, o["max_steps"])
         # steps: placeholders <x> make per-row final texts
         steps = self.steps(n, "x", values or ["none"])
@@ -162,9 +165,18 @@ class ProgGen(object):
         save = o["p_nonpass"]
         o["p_nonpass"] = save / 3.0
         try:
-            return {"kind": "background", "name": "", "desc": [], "steps": self.steps(n)}
+            steps = self.steps(n)
         finally:
             o["p_nonpass"] = save
+        if steps and r.random() < o["p_bg_param"]:
+            # a placeholder of the outlines' examples tables inside a background step: rendered per row for outline rows,
+            # literal text for plain scenarios
+            cands = [st for st in steps if st["text"].startswith("k") and self.outcomes.get(st["text"], "pass") == "pass"]
+            if cands:
+                st = r.choice(cands)
+                self.outcomes.pop(st["text"], None)
+                st["text"] = st["text"] + " <x>"
+        return {"kind": "background", "name": "", "desc": [], "steps": steps}
 
     def items(self, prefix, allow_rules):
         r, o = self.rng, self.o
@@ -207,8 +219,10 @@ class ProgGen(object):
 # walking helpers shared by reference models
 # ---------------------------------------------------------------------------
 
-def substitute(text, header, row):
+def substitute(text, header, row, reserved=None):
     for h, v in zip(header, row):
+        text = text.replace("<%s>" % h, v)
+    for h, v in (reserved or {}).items():
         text = text.replace("<%s>" % h, v)
     return text
 
@@ -241,7 +255,8 @@ def iter_scenario_instances(feature):
                         name = "%s -- @%s %s" % (it["name"], rid, ex.get("name", ""))
                         tags = []
                         for t in it["tags"]:
-                            t2 = substitute(t, ex["header"], row) if ("<" in t and ">" in t) else t
+                            reserved = {"row.index": str(ri + 1), "examples.index": str(ei + 1), "row.id": rid}
+                            t2 = substitute(t, ex["header"], row, reserved) if ("<" in t and ">" in t) else t
                             if "<" in t2 and ">" in t2:
                                 continue
                             tags.append(t2)
